@@ -738,6 +738,7 @@ def c06(run):
     r16_tables.check_expr_fn(run, 'base/quaternions:qvmul', 'qvmul sandwich', 'qqmul(P0, qqmul(pure(P1), conj(P0)))[1:4]',
                              alts=('qqmul(qqmul(P0, pure(P1)), conj(P0))[1:4]',))
     r16_tables._dualquat(run)
+    r16_tables.check_representation_mix(run)             # q.vec3 is the vector part of the s >= 0 representative: not to be paired with q.s
     r22_dualquat.check_point_route(run)
     r16_tables.check_udq_construction(run, rule='R22')    # ... over the stored pair (r, t r / 2) the constructor makes from an SE3
     r16_tables.check_pair_integrity(run, rule='R22')      # (X*Y)*p goes through UnitDualQuaternion(real, dual): the pair is stored as given
